@@ -20,6 +20,8 @@ func checkC07(c *Ctx, r *Report) {
 	c07R1(c, r)
 	c07R2(c, r)
 	c07R3(c, r)
+	tokenLoopsEndAtEOF(c, r, "C07.R2.token-loops-end")
+	tokenClassesRefused(c, r, "C07.R3.token-classes-refused")
 	c07R4(c, r)
 	c07R5(c, r)
 	c07RdataLexErr(c, r)
